@@ -24,8 +24,14 @@
 (* field s.ev collects the observable events of a step (see P_ThreadPool). *)
 (*                                                                         *)
 (* Callers.  Caller c is the task                                          *)
-(*     with CancelScope() as O_c:         (the scope the environment       *)
-(*         var.set(10+c)                   cancels)                        *)
+(*     with CancelScope(shield=cfg[c].osh) as O_c:   (the scope the        *)
+(*         var.set(10+c)                   environment cancels; its shield *)
+(*                                         changes nothing here - nothing  *)
+(*                                         above O_c is ever cancelled -   *)
+(*                                         but a scope that is shielded    *)
+(*                                         AND cancelled is what the walks *)
+(*                                         of check_cancelled and of the   *)
+(*                                         delivery must get right)        *)
 (*         [O_c.cancel() if cfg[c].pre]                                    *)
 (*         r = await to_thread.run_sync(f_c, abandon_on_cancel=cfg[c].ab,  *)
 (*                                      limiter=L)                         *)
